@@ -53,12 +53,12 @@ class C01(Prop):
 
     def oracle(self, case, ops, results):
         if case["meta"].get("kind") == "cr":
-            return []
+            return self.skip("guard")
         obs = [r for r in results if r[0] == "obs"]
         fss = [r for r in results if r[0] == "fs"]
         op_with_obs = [o for o in ops if o[0] not in ("init", "dumpfs", "counters")]
         if len(op_with_obs) != len(obs) or len(fss) != 2:
-            return []   # not a two-process case (e.g. a shrink candidate that lost its checkpoints)
+            return self.skip("not a two-process case (e.g. a shrink candidate that lost its checkpoi")
         # split into processes
         procs, cur = [], []
         for (name, kv), (_, idx, o) in zip(op_with_obs, obs):
@@ -69,20 +69,22 @@ class C01(Prop):
                 cur.append((name, kv, idx, o))
         procs.append(cur)
         if len(procs) < 2:
-            return []
+            return self.skip("guard")
         rec, rep = procs[-2], procs[-1]
         rec_match = [x for x in rec if x[0] == "match"]
         if per_test_calls(rec) != per_test_calls(rep) or not rec_match:
-            return []   # the replay does not make the same calls in the same per-test order
+            return self.skip("the replay does not make the same calls in the same per-test order")
         if not all(x[3]["outcome"] in ("passed", "added", "updated") for x in rec_match):
-            return []   # the last recording run did not record every value: nothing is claimed
+            return self.skip("the last recording run did not record every value: nothing is claimed")
         fails = []
+        file_of = {id(kv_): f_ for (n_, kv_), f_ in zip(ops, op_files(ops))}
         for name, kv, idx, o in rep:
             if name != "match":
                 continue
             if o["outcome"] != "passed" or o["errors"] != "0" or o["logs"] != "-" or o["writes"] != "-":
                 fails.append({"msg": "replay obs %d (%s %s): outcome=%s errors=%s logs=%s writes=%s" %
                               (idx, kv["api"], unhx(kv["test"]), o["outcome"], o["errors"], o["logs"], o["writes"]),
+                              "file": file_of.get(id(kv)),
                               "updated_in_record": any(x[3]["outcome"] == "updated" for x in rec_match)})
         if fss[0][2] != fss[1][2]:
             fails.append({"msg": "snapshot directory changed during replay"})
@@ -90,7 +92,7 @@ class C01(Prop):
 
     def known_signature(self, finding, case, ops, results, failure):
         if finding["id"] == "K2":
-            return header_collision(ops)
+            return header_collision(ops, failure)
         return False
 
     def nontrivial(self, case, ops, results):
@@ -120,24 +122,54 @@ def per_test_calls(proc):
     return res
 
 
-def header_collision(ops):
-    """K2 signature: some formatted value (or initial file) contains a line equal to a header
-    `[name - k]` of a test name used in the case."""
-    names = set(unhx(kv["test"]) for n, kv in ops if n == "match")
-    texts = []
+def op_files(ops):
+    """for every op of the list: the multi-entry file a match op addresses (None for other ops / standalone calls)"""
+    cfgs, out = [], []
     for n, kv in ops:
-        if n == "match" and kv.get("pre", "").startswith("ok:"):
-            texts.append(unhx(kv["pre"][3:]))
-        if n == "putfile":
-            texts.append(unhx(kv["content"]))
+        if n == "newprocess":
+            cfgs = []
+        if n == "newconfig":
+            cfgs.append(kv)
+        f = None
+        if n == "match" and kv.get("api") in ("snap", "json", "yaml"):
+            h = int(kv.get("h", "0"))
+            cfg = cfgs[h - 1] if 0 < h <= len(cfgs) else {"fn": "~", "dir": "~", "ext": "~"}
+            f = G.expected_multi_path(cfg, kv["api"], kv["test"])
+        out.append(f)
+    return out
+
+
+def collision_files(ops):
+    """K2 signature, per FILE: the files in which some formatted value (or the initial content) holds a line equal to a header
+    `[name - k]` of a test name that addresses that same file in the case."""
     import re
-    for t in texts:
+    files = op_files(ops)
+    names_in = {}
+    for (n, kv), f in zip(ops, files):
+        if f is not None:
+            names_in.setdefault(f, set()).add(unhx(kv["test"]))
+    texts = []          # (file, text)
+    for (n, kv), f in zip(ops, files):
+        if f is not None and kv.get("pre", "").startswith("ok:"):
+            texts.append((f, unhx(kv["pre"][3:])))
+        if n == "putfile":
+            texts.append((unhx(kv["path"]).decode("latin-1"), unhx(kv["content"])))
+    hit = set()
+    for f, t in texts:
         for line in t.split(b"\n"):
-            line = line.rstrip(b"\r")
-            m = re.match(rb"^\[(.*) - (\d+)\]$", line, re.S)
-            if m and m.group(1) in names:
-                return True
-    return False
+            m = re.match(rb"^\[(.*) - (\d+)\]$", line.rstrip(b"\r"), re.S)
+            if m and m.group(1) in names_in.get(f, ()):
+                hit.add(f)
+    return hit
+
+
+def header_collision(ops, failure=None):
+    """K2 applies to a failure only if it concerns a file in which such a collision exists (failures that carry no file - a whole
+    directory comparison - fall back to: some file of the case has one)."""
+    hit = collision_files(ops)
+    if failure is not None and failure.get("file") is not None:
+        return failure["file"] in hit
+    return bool(hit)
 
 
 PROP = C01()
